@@ -234,6 +234,16 @@ def explore(ctx):
                 c = gen.rand_case(rng, maxpix=30, allow_user=False)       # incl. integer dtypes
                 if c.get('minv') is not None and rng.random() < 0.7:
                     c['minv'] = None
+            if rng.random() < 0.08:
+                # integer data reaching an end of its dtype, default threshold (one below the minimum)
+                dt = rng.choice(['uint8', 'uint16', 'int8', 'int16', 'int32', 'uint32', 'int64', 'int64', 'uint64'])
+                info = np.iinfo(dt)
+                span = rng.choice([6, 12, 40])
+                base = rng.choice([info.min, info.min, info.max - span])
+                c['vals'] = [int(base + (abs(int(v)) % (span + 1))) for v in (x if x is not None else 0 for x in c['vals'])]
+                c['dtype'], c['scale'], c['minv'], c['delta'], c['npix'] = dt, 0, None, 0, [0, 1]
+                c.pop('den', None)
+                ctx.count('integer_bounds_stream')
             if c.get('dtype', 'float64') == 'float64' and not c.get('den') and rng.random() < 0.15:
                 # the same integers on a very fine grid: parameters like 3 * 2**-40 need 17 significant digits
                 c['scale'] = rng.choice([30, 40, 45])
@@ -264,7 +274,12 @@ def explore(ctx):
             try:
                 d2 = roundtrip(d, fmt, how, use_path, tmpdir)
             except Exception as e:
-                ctx.oracle_failure(info, ['save/load raised %r' % (e,)], {'exc': type(e).__name__})
+                extra = {'exc': type(e).__name__}
+                mv = d.params.get('min_value')
+                if fmt == 'hdf5' and isinstance(e, TypeError) and 'no native HDF5 equivalent' in str(e) and \
+                        isinstance(mv, int) and not (-2 ** 63 <= mv < 2 ** 64):
+                    extra['tag'] = 'K7'
+                ctx.oracle_failure(info, ['save/load raised %r' % (e,)], extra)
                 continue
             fails, tags = compare_loaded(c, d, d2, fmt, had_wcs)
             key = (fmt, how, tuple(c['vals']), tuple(c['shape']), str(history)) if len(d) >= 3 else None
@@ -411,7 +426,7 @@ def format_table(ctx, tmpdir):
 
 def matches_known(k, case, fails, extra):
     extra = extra or {}
-    if k['id'] in ('K3', 'K6'):
+    if k['id'] in ('K3', 'K6', 'K7'):
         return extra.get('tag') == k['id']
     return False
 
